@@ -42,9 +42,17 @@ PROGRAMS = {
     # ends with its own exception at the last moment
     'slow_error': "a = 1\nprint('hello')\nb = a / 0\n",
 }
+# a second file of the submission that never finishes, imported by the main file: under a configured time limit the
+# import runs in a thread of its own, inside the runner's thread
+IMPORT_MAIN = "import helper\nprint('main done')\n"
+IMPORT_HELPER = {'import_busy': "n = 0\nwhile spin():\n    n = n + 1\n",
+                 'import_printing': "while spin():\n    print('tick')\n",
+                 'import_block': "print('before')\nblock()\n",
+                 'import_slow_error': "a = 1\nprint('hello')\nb = a / 0\n"}
 SECOND = "print('second')\nprobe_value = 6 * 7\n"
 # (exception, runtime feedback) of a normal completion of the terminating students
-NORMAL = {'slow': (None, []), 'slow_error': ('ZeroDivisionError', ['zero_division_error'])}
+NORMAL = {'slow': (None, []), 'slow_error': ('ZeroDivisionError', ['zero_division_error']),
+          'import_slow_error': ('ZeroDivisionError', ['zero_division_error'])}
 
 
 def _setup():
@@ -90,15 +98,23 @@ def make_body(programs, k_join, filtered, entry='run'):
 
     def body(ctx):
         pname = names[ctx.choose(len(names), 'program')]
-        prog = PROGRAMS[pname]
+        files = None
+        if pname in IMPORT_HELPER:
+            prog, files = IMPORT_MAIN, {'answer.py': IMPORT_MAIN, 'helper.py': IMPORT_HELPER[pname]}
+        else:
+            prog = PROGRAMS[pname]
         snap = sc.GlobalState()
         if entry.split('-')[0] in ('call', 'evaluate'):
             # the same student code as the body of a function, timed out inside call('go', threaded=True)
             prog = "def go():\n" + "".join("    " + l + "\n" for l in prog.split("\n") if l)
-        sb = sc.contextualize(prog, {'answer.py': prog})
+        sb = sc.contextualize(prog, files or {'answer.py': prog})
         sb.allowed_time = 5
         sb.data['spin'] = _spin
         sb.data['block'] = _block
+        if files:
+            # the imported file has a namespace of its own: the harness builtins reach it as builtins
+            sb.mock_function('spin', _spin)
+            sb.mock_function('block', _block)
         if entry.split('-')[0] in ('call', 'evaluate'):
             sb.run()
         if entry.endswith('-configured'):
@@ -165,7 +181,7 @@ def make_body(programs, k_join, filtered, entry='run'):
         for l in S.log:
             if l[0] == 'finished':
                 who_last = l[1]
-        sig_base = {'program_kind': 'stuck in its exception text' if pname.startswith('slow_str') else 'terminating' if pname.startswith('slow') else ('blocking' if pname == 'block' else 'looping')}
+        sig_base = {'program_kind': 'stuck in its exception text' if pname.startswith('slow_str') else 'imports a second file' if pname.startswith('import_') else 'terminating' if pname.startswith('slow') else ('blocking' if pname == 'block' else 'looping')}
         canon = repr((pname, first, second, final, leaked, repr(err)[:60], repr(err2)[:60]))
         ctx.observe(canon)
         after_timer_steps = any(l[0] in ('deliver', 'blocks forever', 'drain horizon reached') for l in S.log)
@@ -202,7 +218,9 @@ def make_body(programs, k_join, filtered, entry='run'):
                 fail('timer fired but the sandbox exception is not a timeout', got=first['exception'],
                      feedback=first['runtime_feedback'])
                 return
-        if not S.timer_fired:
+        if not S.timer_fired and S.inner_timer_fired and timed_out:
+            pass       # the time limit of the imported file's own thread ended it: also a time-out, judged below
+        elif not S.timer_fired:
             if (first['exception'], first['runtime_feedback']) != NORMAL.get(pname, (None, [])):
                 fail('no time-out happened but the result is not that of a normal completion', got=first['exception'],
                      feedback=first['runtime_feedback'])
@@ -307,6 +325,10 @@ def phases(tier):
                   describe="sandbox.threaded = True and the module-level call('go'); every timer position, no pre-emption"),
             Phase('configured-evaluate-b0', make_body(PROGRAMS, 40, True, 'evaluate-configured'), bound=0, setup=_setup, chunk=150,
                   horizon_s=30, describe="sandbox.threaded = True and the module-level evaluate('go()'); every timer position"),
+            Phase('configured-import-b0', make_body(IMPORT_HELPER, 90, True, 'run-configured'), bound=0, setup=_setup, chunk=150,
+                  horizon_s=30, describe='sandbox.threaded = True; the main file imports a second student file that never '
+                                         'finishes / fails late (a timed thread inside the timed thread): every position of '
+                                         'the outer and of the inner timer, no pre-emption'),
             Phase('call-entry-b1', make_body(_sub('busy', 'printing', 'block', 'slow_error', 'swallow_once'), 40, True, 'call'),
                   bound=1, setup=_setup, chunk=150, horizon_s=30, max_execs=600000,
                   describe="the time-out inside call('go', threaded=True); points = lines touching shared state; bound 1"),
